@@ -3,7 +3,7 @@
 //! `vh arith replay <cases.ndjson>`            spec -> impl: every case TLC wrote (operator, operands,
 //!                                             predicted result) is executed in every execution form
 //!                                             and compared with the prediction.
-//! `vh arith record <out.ndjson> <n_int> <n_float> [<cases.ndjson>]`
+//! `vh arith record <out.ndjson> <n_int> <n_float> [<cases.ndjson>|-] [<chunk>]`
 //!                                             impl -> spec: a seeded random stream of (op, a, b) over
 //!                                             all of i64 / f64 (plus the float grid of <cases>) is
 //!                                             executed in every form and written as ndjson for
@@ -437,7 +437,8 @@ impl Stats {
         Stats { cases: 0, executions: 0, by_form: HashMap::new(), errors_at_parse: 0, errors_at_exec: 0,
                 lit_unavailable: 0, distinct: Default::default() }
     }
-    fn note(&mut self, op: &str, a: Sc, b: Option<Sc>, runs: &[FormRun]) {
+    /// returns whether the case counts as non-trivial
+    fn note(&mut self, op: &str, a: Sc, b: Option<Sc>, runs: &[FormRun]) -> bool {
         self.cases += 1;
         self.executions += runs.len() as u64;
         for r in runs {
@@ -450,9 +451,11 @@ impl Stats {
             self.lit_unavailable += 1;
         }
         // non-trivial: executed in at least three forms, one of them a run-time form
-        if runs.len() >= 3 && runs.iter().any(|r| r.form == "api") {
+        let nontrivial = runs.len() >= 3 && runs.iter().any(|r| r.form == "api");
+        if nontrivial {
             self.distinct.insert((format!("{}{op}", a.ty().name()), a, b));
         }
+        nontrivial
     }
     fn json(&self) -> Value {
         json!({"cases": self.cases, "executions": self.executions, "by_form": self.by_form,
@@ -482,6 +485,7 @@ fn replay(path: &str) -> Value {
     let mut mm = Mismatches::new(300);
     let mut st = Stats::new();
     let mut samples = vec![];
+    let mut trivial: Vec<usize> = vec![];
     for (idx, c) in cases.iter().enumerate() {
         let t = c["t"].as_str().unwrap();
         let ty = ty_of_tag(t);
@@ -495,7 +499,9 @@ fn replay(path: &str) -> Value {
             Some(b) => exec_binary(op, a, b, &mut cache, false),
             None => exec_unary(op, a, &mut cache),
         };
-        st.note(op, a, b, &runs);
+        if !st.note(op, a, b, &runs) {
+            trivial.push(idx);
+        }
         for r in &runs {
             if r.out != expected {
                 let mut d = case_json(t, op, a, b);
@@ -527,6 +533,7 @@ fn replay(path: &str) -> Value {
     res["mismatch_counts"] = mm.counts();
     res["mismatches"] = mm.items();
     res["samples"] = json!(samples);
+    res["trivial_case_indices"] = json!(trivial);
     res
 }
 
@@ -619,21 +626,21 @@ fn host_float(op: &str, a: f64, b: f64) -> f64 {
     }
 }
 
-fn record(out_path: &str, n_int: usize, n_float: usize, cases_path: Option<&str>) -> Value {
-    let mut rng = Rng::from_env(0xC08);
+fn record(out_path: &str, n_int: usize, n_float: usize, cases_path: Option<&str>, chunk: u64) -> Value {
+    let mut rng = Rng::from_env(0xC08 + 0x1000 * chunk);
     let mut cache = Cache::default();
     let mut mm = Mismatches::new(300);
     let mut st = Stats::new();
     let mut file = std::io::BufWriter::new(std::fs::File::create(out_path).expect("cannot create the trace file"));
     let mut records = 0u64;
     let mut samples = vec![];
-    let emit = |file: &mut std::io::BufWriter<std::fs::File>, t: &str, op: &str, a: Sc, b: Option<Sc>, runs: &[FormRun]| {
+    let emit = |file: &mut std::io::BufWriter<std::fs::File>, t: &str, op: &str, a: Sc, b: Option<Sc>, runs: &[FormRun], nt: bool| {
         let rs: Vec<Value> = runs.iter().map(|r| json!({"f": r.form, "r": out_json(&r.out)})).collect();
         let cells: Vec<Value> = runs.iter()
             .filter(|r| r.form.starts_with("asg") && (r.form == "asg_lit" || !matches!(r.out, Out::Err(_))))
             .map(|r| json!({"f": r.form, "r": r.cell.as_ref().map(out_json).unwrap_or(json!({"k": "missing"}))}))
             .collect();
-        let mut rec = json!({"t": t, "op": op, "a": a.wire(), "as": a.show(), "rs": rs, "cells": cells});
+        let mut rec = json!({"t": t, "op": op, "a": a.wire(), "as": a.show(), "rs": rs, "cells": cells, "nt": nt});
         if let Some(b) = b {
             rec["b"] = b.wire();
             rec["bs"] = json!(b.show());
@@ -647,8 +654,8 @@ fn record(out_path: &str, n_int: usize, n_float: usize, cases_path: Option<&str>
             let op = if rng.chance(1, 2) { "neg" } else { "not" };
             let a = Sc::I(rand_int(&mut rng));
             let runs = exec_unary(op, a, &mut cache);
-            st.note(op, a, None, &runs);
-            emit(&mut file, "int1", op, a, None, &runs);
+            let nt = st.note(op, a, None, &runs);
+            emit(&mut file, "int1", op, a, None, &runs, nt);
             records += 1;
             continue;
         }
@@ -656,12 +663,12 @@ fn record(out_path: &str, n_int: usize, n_float: usize, cases_path: Option<&str>
         if earlier.len() < 64 { earlier.push((op, a, b)); }
         let (a, b) = (Sc::I(a), Sc::I(b));
         let runs = exec_binary(op, a, b, &mut cache, false);
-        st.note(op, a, Some(b), &runs);
+        let nt = st.note(op, a, Some(b), &runs);
         if i % (n_int / 3 + 1) == 5 {
             samples.push(json!({"case": case_json("int2", op, a, Some(b)),
                 "impl": runs.iter().map(|r| json!({"form": r.form, "got": out_show(&r.out)})).collect::<Vec<_>>()}));
         }
-        emit(&mut file, "int2", op, a, Some(b), &runs);
+        emit(&mut file, "int2", op, a, Some(b), &runs, nt);
         records += 1;
     }
     // --- floats: the grid of the specification (all pairs, arithmetic operators) and a random stream
@@ -674,7 +681,8 @@ fn record(out_path: &str, n_int: usize, n_float: usize, cases_path: Option<&str>
         }
     }
     let mut float_cases: Vec<(&'static str, u64, u64)> = vec![];
-    for &a in &grid {
+    // (all pairs of the grid only in the first chunk; later chunks draw from it at random)
+    for &a in grid.iter().filter(|_| chunk == 0) {
         for &b in &grid {
             for op in &FLOAT_BIN[..5] {
                 float_cases.push((op, a, b));
@@ -696,7 +704,7 @@ fn record(out_path: &str, n_int: usize, n_float: usize, cases_path: Option<&str>
     for (i, (op, a, b)) in float_cases.iter().enumerate() {
         let (sa, sb) = (Sc::F(*a), Sc::F(*b));
         let runs = exec_binary(op, sa, sb, &mut cache, i % 4 == 0);
-        st.note(op, sa, Some(sb), &runs);
+        let nt = st.note(op, sa, Some(sb), &runs);
         if !CMP.contains(op) {
             // the IEEE-754 result itself: the host's f64 arithmetic is the reference (not expressible in TLA+)
             let host = host_float(op, f64::from_bits(*a), f64::from_bits(*b)).to_bits();
@@ -724,15 +732,15 @@ fn record(out_path: &str, n_int: usize, n_float: usize, cases_path: Option<&str>
             samples.push(json!({"case": case_json("float2", op, sa, Some(sb)),
                 "impl": runs.iter().map(|r| json!({"form": r.form, "got": out_show(&r.out)})).collect::<Vec<_>>()}));
         }
-        emit(&mut file, "float2", op, sa, Some(sb), &runs);
+        emit(&mut file, "float2", op, sa, Some(sb), &runs, nt);
         records += 1;
     }
     // unary minus on random floats
     for _ in 0..(n_float / 10) {
         let a = Sc::F(rand_float(&mut rng, &grid));
         let runs = exec_unary("neg", a, &mut cache);
-        st.note("neg", a, None, &runs);
-        emit(&mut file, "float1", "neg", a, None, &runs);
+        let nt = st.note("neg", a, None, &runs);
+        emit(&mut file, "float1", "neg", a, None, &runs, nt);
         records += 1;
     }
     file.flush().unwrap();
@@ -753,10 +761,11 @@ pub fn run(args: &[String]) -> Value {
             &args[1],
             args.get(2).and_then(|s| s.parse().ok()).unwrap_or(1000),
             args.get(3).and_then(|s| s.parse().ok()).unwrap_or(300),
-            args.get(4).map(String::as_str),
+            args.get(4).map(String::as_str).filter(|p| *p != "-"),
+            args.get(5).and_then(|s| s.parse().ok()).unwrap_or(0),
         ),
         _ => {
-            eprintln!("usage: vh arith replay <cases.ndjson> | vh arith record <out.ndjson> <n_int> <n_float> [<cases.ndjson>]");
+            eprintln!("usage: vh arith replay <cases.ndjson> | vh arith record <out.ndjson> <n_int> <n_float> [<cases.ndjson>|-] [<chunk>]");
             std::process::exit(2);
         }
     }
